@@ -1215,6 +1215,10 @@ func (rn *runner) step() {
 			// a whole round in order: proposal, prevotes, precommits by everyone
 			rn.stats["script_full_round"]++
 			rn.script = []string{"propose", "prevote-all", "precommit-all"}
+		case y == 5:
+			// a commit attempt made of ONE validator's precommit filed under every key id
+			rn.stats["script_one_signature_for_all"]++
+			rn.script = []string{"propose", "precommit-one-for-all", "precommit-one-for-all"}
 		}
 	}
 	if rn.consumers {
@@ -1380,6 +1384,20 @@ func (rn *runner) scripted(op string, v, c *tmconsensus.VersionedRoundView) bool
 	case "precommit-one":
 		i := rn.w.r.below(max(n, 1))
 		rn.doVotes(kindPrecommit, H, R, pkh, []voteEntry{{target, rn.mkSigs(cur, kindPrecommit, H, R, target, []int{i}, 0)}})
+	case "precommit-one-for-all":
+		i0 := rn.w.r.below(max(n, 1))
+		key0 := 0
+		if i0 < n {
+			key0 = cur.keys[i0]
+		}
+		one := rn.w.voteSig(key0, kindPrecommit, H, R, target)
+		sigs := []gcrypto.SparseSignature{{KeyID: keyID16(i0), Sig: one}}
+		for i := 0; i < n; i++ {
+			if i != i0 {
+				sigs = append(sigs, gcrypto.SparseSignature{KeyID: keyID16(i), Sig: one})
+			}
+		}
+		rn.doVotes(kindPrecommit, H, R, pkh, []voteEntry{{target, sigs}})
 	case "prevote-all":
 		rn.doVotes(kindPrevote, H, R, pkh, []voteEntry{{target, rn.mkSigs(cur, kindPrevote, H, R, target, allIdx(n), 0)}})
 	case "precommit-all":
